@@ -13,7 +13,7 @@ from typing import Dict, List, Optional
 
 from .interp import BytesObj, ClassRef, DictObj, ExcVal, FloatObj, IntObj, Interp, Obj, Raised, StrObj, Sym
 
-PURE_STDLIB = {"struct": struct, "bisect": bisect, "operator": operator, "math": math}
+PURE_STDLIB = {"struct": struct, "bisect": bisect, "operator": operator, "math": math}   # see interp._PURE_STDLIB
 
 # CCSDS 133.0-B primary header (reference packer of the checker, independent of the repository's)
 def ccsds_bytes(data: bytes, *, version=0, type=0, shf=0, apid=0, flags=3, count=0, length_field: Optional[int] = None) -> bytes:
